@@ -7,6 +7,7 @@ import (
 	"fmt"
 	"net"
 	"strings"
+	"sync/atomic"
 	"time"
 
 	"github.com/datastax/cql-proxy/proxy"
@@ -290,7 +291,7 @@ func runC08(c *Ctx) {
 	r := c.R
 	r.Assume("the prepared cache is far from its capacity (a handful of statements), so every id prepared through the proxy is in it")
 	r.Assume("the fake backend, like Cassandra, compresses every non-empty response body once compression was negotiated, ERROR frames included, and rejects frames whose version differs from the connection's")
-	r.Require("unprepared_handled", "executes_ok", "fresh_prepare_executes")
+	r.Require("unprepared_handled", "executes_ok", "fresh_prepare_executes", "pipelined_reprepare_cases")
 	_ = model.Rows
 	var cases []c08Case
 	for _, hosts := range []int{2, 3} {
@@ -359,6 +360,11 @@ func runC08(c *Ctx) {
 	for i := 0; i < c.Pick(6, 1200); i++ {
 		if c.Mine(i) {
 			c08FreshPrepare(c, i, 2+i%2, []string{"", "lz4", "snappy"}[i%3], []time.Duration{2 * time.Millisecond, 500 * time.Microsecond, 5 * time.Millisecond}[i%3])
+		}
+	}
+	for i := 0; i < c.Pick(16, 2000); i++ {
+		if c.Mine(i) {
+			c08PipelinedReprepareLost(c, i)
 		}
 	}
 	var _ = rawcql.Plain
@@ -437,4 +443,111 @@ func c08FreshPrepare(c *Ctx, idx int, hosts int, comp string, delay time.Duratio
 		}
 	}
 	r.NonTrivial(fmt.Sprintf("fresh-prepare/h%d/%s/%s", hosts, compName, delay))
+}
+
+// c08PipelinedReprepareLost: several EXECUTEs of one id are in flight on one backend connection of a host that does not
+// know the statement; their UNPREPARED answers arrive together, the proxy re-prepares, and the connection is lost while
+// the re-PREPARE is unanswered. Every one of the EXECUTEs must still be answered - by another host (idempotent) or with
+// the connection-lost error (not idempotent) - none may hang or be dropped.
+func c08PipelinedReprepareLost(c *Ctx, idx int) {
+	r := c.R
+	rng := c.Rng(52000 + idx)
+	hosts := 2 + rng.Intn(2)
+	comp := []string{"", "lz4", "snappy"}[rng.Intn(3)]
+	idem := idx%4 != 3
+	nPipe := 2 + rng.Intn(7)
+	how := []string{"drop", "error"}[(idx/4)%2]
+	key := fmt.Sprintf("pipelined-reprepare-%s/h%d/%s/idem=%v/n=%d", how, hosts, comp, idem, nPipe)
+	scenario := map[string]interface{}{"kind": "c08-pipelined-reprepare-lost", "idx": idx}
+	c.Step("c08 %s", key)
+	bed, err := px.NewBed(px.BedConfig{Hosts: hosts, NumConns: 1, Keyspaces: []string{"ks1"}, KeepBodies: true, ReconnectBase: time.Millisecond, ReconnectMax: 3 * time.Millisecond})
+	if err != nil {
+		r.Inconc("c08: cannot start bed: " + err.Error())
+		return
+	}
+	defer bed.Close()
+	bed.OnHook(nil)
+	cl, err := bed.ReadyClient(primitive.ProtocolVersion4, comp)
+	if err != nil {
+		r.Inconc("c08: handshake: " + err.Error())
+		return
+	}
+	defer cl.Close()
+	if err := PrepareStandard(bed, cl, true); err != nil {
+		r.Inconc("c08: prepare: " + err.Error())
+		return
+	}
+	forgetful := 1 + rng.Intn(hosts)
+	bed.Cluster.Hosts[forgetful-1].Forget()
+	var preparesSeen int32
+	bed.Cluster.SetScript(func(a *fakecass.Arrival) fakecass.Outcome {
+		if a.OpCode == primitive.OpCodePrepare && a.Host == forgetful {
+			atomic.AddInt32(&preparesSeen, 1)
+			if how == "error" {
+				return fakecass.Err("Overloaded", &message.Overloaded{ErrorMessage: "re-prepare refused"})
+			}
+			o := fakecass.DropBefore()
+			o.Name = "ConnLost"
+			return o
+		}
+		return fakecass.Outcome{}
+	})
+	atomic.StoreInt32(&bed.Cluster.HoldUnprepared, 1)
+	mark := bed.Log.Len()
+	// enough pipelined EXECUTEs that nPipe of them land on the forgetful host (round robin over the hosts)
+	total := nPipe * hosts
+	type sent struct {
+		ch  chan *rawcql.Frame
+		tok string
+		st  int16
+	}
+	var reqs []sent
+	for i := 0; i < total; i++ {
+		tok := NewTok()
+		st := int16(100 + i)
+		ch := cl.Expect(st)
+		if err := cl.SendF(BuildRequest(primitive.ProtocolVersion4, st, KExecute, idem, tok, primitive.ConsistencyLevelOne)); err != nil {
+			r.Inconc("c08: send: " + err.Error())
+			return
+		}
+		reqs = append(reqs, sent{ch, tok, st})
+	}
+	if !waitFor(func() bool { return bed.Cluster.HeldCount() >= nPipe }, 10*time.Second) {
+		r.Inconc(fmt.Sprintf("c08 %s: only %d of %d EXECUTEs were answered UNPREPARED by the forgetful host", key, bed.Cluster.HeldCount(), nPipe))
+		return
+	}
+	atomic.StoreInt32(&bed.Cluster.HoldUnprepared, 0)
+	bed.Cluster.ReleaseHeld(nil) // all UNPREPARED answers arrive back to back
+	bad, unanswered := 0, 0
+	var sample string
+	for _, q := range reqs {
+		f, err := cl.Wait(q.ch, 15*time.Second)
+		r.Eval(1)
+		if err != nil || f == nil {
+			unanswered++
+			continue
+		}
+		ri := DecodeReply(comp, f)
+		switch {
+		case ri.Kind == "Rows" && ri.Tok == q.tok:
+		case !idem && how == "drop" && isConnLostErr(ri):
+		case ri.ErrCode == primitive.ErrorCodeUnprepared:
+			r.Violate(mon.Violation{Signature: "C08/unprepared-reached-client/pipelined-reprepare-" + how, Detail: key + ": client received UNPREPARED", Scenario: scenario})
+		default:
+			bad++
+			sample = fmt.Sprintf("%s %q", ri.Kind, ri.ErrMsg)
+		}
+	}
+	if unanswered > 0 {
+		// premise of "answered": nothing is left unanswered at the backend (every arrival was answered or its connection dropped)
+		r.Violate(mon.Violation{Signature: "C08/no-reply/pipelined-reprepare-" + how, Detail: fmt.Sprintf("%s: %d of %d pipelined EXECUTEs were never answered after the re-PREPARE on host %d %s (re-PREPAREs seen by that host: %d)", key, unanswered, total, forgetful, map[string]string{"drop": "lost its connection", "error": "was refused"}[how], atomic.LoadInt32(&preparesSeen)),
+			Scenario: scenario, Witness: historyOf(bed.Log.Snapshot()[mark:], cl.ID, reqs[0].st, reqs[0].tok)})
+	}
+	if bad > 0 {
+		r.Violate(mon.Violation{Signature: "C08/execute-failed/pipelined-reprepare-" + how, Detail: fmt.Sprintf("%s: %d of %d EXECUTEs failed although another host can execute them (e.g. %s)", key, bad, total, sample), Scenario: scenario})
+	}
+	r.Obs("pipelined_reprepare_cases", 1)
+	if atomic.LoadInt32(&preparesSeen) > 0 {
+		r.NonTrivial(key)
+	}
 }
